@@ -181,9 +181,6 @@ FINDINGS = {
     'grid-negative-line-numbers': replay_grid_negative_line,
     'grid-maximize-no-redistribution': replay_grid_maximize,
     'grid-leading-implicit-tracks-misindexed': replay_grid_leading_implicit_tracks,
-    'grid-named-span-from-last-line': replay_grid_named_span_from_last_line,
-    'grid-backward-named-span-count': replay_grid_backward_named_span_count,
-    'flex-negative-factor-accepted': replay_flex_negative_factor,
 }
 
 # findings repaired in /repo (`fixed:` lines): their replay functions are regression cases; each must stay False
@@ -200,6 +197,9 @@ FIXED = {
     'grid-named-line-nth-ignored': replay_grid_named_nth,
     'grid-justify-self-outer-width': replay_grid_justify_self_outer,
     'grid-column-flow-implicit-start': replay_grid_column_flow_implicit_start,
+    'grid-named-span-from-last-line': replay_grid_named_span_from_last_line,
+    'grid-backward-named-span-count': replay_grid_backward_named_span_count,
+    'flex-negative-factor-accepted': replay_flex_negative_factor,
 }
 
 
@@ -269,6 +269,14 @@ def regression_cases():
         ('grid-justify-self-outer-width', 'grid', _gdoc([_gitem(0, width=20, pl=5, pr=5, js='start')])),
         ('grid-column-flow-implicit-start', 'grid',
          _gdoc([_gitem(0, re=(None, 1, None)), _gitem(1)], flow='column')),
+        ('grid-named-span-from-last-line', 'grid',
+         _gdoc([_gitem(0, cs=(None, 3, None), ce=('span', 2, 'p'), height=None)], cols=_pxcols(10, 10),
+               auto_cols=[('px', F(10))], jc='start')),
+        ('grid-backward-named-span-count', 'grid',
+         _gdoc([_gitem(0, cs=('span', None, 'p'), ce=(None, 4, None))],
+               cols=_pxcols(10, 20, 30, names=[['p'], ['p'], ['p'], []]), jc='start')),
+        ('flex-negative-factor-accepted', 'flex',
+         _fcase([_fitem(0, grow=1, shrink=1, basis=0, height=5), _fitem(1, grow=-1, basis=0, height=5)])),
     ]
 
 
@@ -580,7 +588,8 @@ class C12(PropCheck):
         # the same computed values written with the shorthands (`flex`, `flex-flow`, `gap`, `grid-row`, `grid-column`)
         sec_sh = tolerant_section(
             run, 'shorthand-doc',
-            'flex and grid documents written with the shorthands flex / flex-flow / gap / grid-row / grid-column '
+            'flex and grid documents written with the shorthands flex / flex-flow / gap / grid-row / grid-column / '
+            'grid-area (one to four components) '
             'against the models fed with the longhand values; non-trivial = always')
         for _ in range(run.n(250, 3000)):
             case = fx.gen_case(rng)
@@ -593,6 +602,14 @@ class C12(PropCheck):
             doc = gx.gen_doc(rng)
             sec_sh.add(gx.wire_doc(doc), gx.impl_doc(doc, seconds, shorthand=True),
                        meta={'kind': 'grid', 'doc': doc, 'shorthand': True}, tags=['grid'])
+        # `grid-area` in its one- to four-component forms (css-grid 8.4: omitted components are derived from the start
+        # values when those are custom idents): the model gets the longhands of the specified expansion
+        for _ in range(run.n(160, 2000)):
+            doc = gx.area_variant(gx.gen_doc(rng), rng)
+            ncomp = [len(gx.area_components(it)) for it in doc['items']]
+            sec_sh.add(gx.wire_doc(doc), gx.impl_doc(doc, seconds, shorthand='area'),
+                       meta={'kind': 'grid', 'doc': doc, 'shorthand': 'area'},
+                       tags=['grid-area'] + sorted({f'grid-area:{n}-components' for n in ncomp}))
         # branches of the models that no case of this run went through
         hit = set(sec.tags) | set(sec_adv.tags) | set(sec_g.tags)
         known = set(FLEX_BRANCHES + GRID_BRANCHES)
@@ -607,20 +624,6 @@ class C12(PropCheck):
         run.extra['float_rounding'] = rounding
         run.extra['exhaustive'] = True
         run.extra['exhaustive_what'] = '_intersect on all positions -3..6 x sizes 0..4 (2500 quadruples)'
-
-    # ------------------------------------------------------------------ classify
-    def classify(self, d):
-        """Negative flex factors are invalid CSS that the validator lets through (finding flex-negative-factor-accepted):
-        9.7 is not monotone with them and a float rounding residue in one target can flip the `adjustments == 0`
-        decision of 9.7.5.e.  A disagreement between two *layouts* (no error on either side) on such an input is
-        explained by that finding; everything else (errors, valid factors) is not."""
-        meta = d.get('meta') or {}
-        if meta.get('kind') != 'flex' or not (d['impl'].startswith('ok ') and d['model'].startswith('ok ')):
-            return None
-        case = case_from_meta(meta['case'])
-        if any(it['grow'] < 0 or it['shrink'] < 0 for it in case['items']):
-            return 'flex-negative-factor-accepted'
-        return None
 
     # ------------------------------------------------------------------ judge
     def judge(self, d):
@@ -769,7 +772,7 @@ class C12(PropCheck):
             return (f'regression of the repaired finding {meta["id"]}' if FIXED[meta['id']]() else None)
         if kind == 'flex':
             case = case_from_meta(meta['case'])
-            out = fx.impl_out(case)
+            out = fx.impl_out(case, shorthand=bool(meta.get('shorthand')))
             if out.startswith('err:'):
                 return f'flex_layout raised {out[4:]}'
             parsed = fx.parse_out(out)
@@ -777,7 +780,7 @@ class C12(PropCheck):
                     or orc.flex_lines_violation(case, parsed))
         if kind == 'grid':
             doc = doc_from_meta(meta['doc'])
-            out = gx.impl_doc(doc, 10)
+            out = gx.impl_doc(doc, 10, shorthand=meta.get('shorthand') or False)   # True, 'area' or False
             return (orc.grid_doc_violation(doc, out) or orc.dense_violation(doc, out) or tracks_doc_violation(doc, out)
                     or orc.grid_geometry_violation(doc, out))
         grid = gx.grid_mod()
@@ -1146,11 +1149,10 @@ MANIFEST = {
             'borders). Keyword sets of the alignment branches and the graphs of _intersect / _get_placement / _get_span '
             'are regenerated from the source each run.',
     'note': 'Trusted: Lean kernel, the AST/graph translator, the correspondence harness (sampled, empty block items, '
-            'definite container width). Ten known findings (negative flex factors accepted, auto top/bottom margins zeroed, fractional factor sums, '
+            'definite container width). Seven known findings (auto top/bottom margins zeroed, fractional factor sums, '
             'content base size clamped, negative grid lines, tracks before the explicit grid, hang of a span to a '
-            'missing line name, single-pass maximize, named span from the last explicit line doubled, backward named '
-            'span counted with the end line integer) are witnessed in Witness/C12.lean and replayed each run '
-            '(corpus/C12); the corresponding theorems carry explicit hypotheses. Twelve repaired findings are kept as '
+            'missing line name, single-pass maximize) are witnessed in Witness/C12.lean and replayed each run '
+            '(corpus/C12); the corresponding theorems carry explicit hypotheses. Fifteen repaired findings are kept as '
             'regression theorems (Witness/C12.lean `..._fixed`), as corpus-first correspondence cases (section '
             '`regressions`) and as replay functions run first by the failing-input search. Intrinsic sizing, baselines, '
             'auto-fit/auto-fill, subgrid and spanning items over content-sized tracks are not modelled.',
